@@ -341,6 +341,14 @@ row(props=["C12"], func=API + "(JavaAPIListener).EnterAnnotation", params=["s", 
 row(props=["C06"], func="pkg/application/refactor/unused.(RemoveUnusedImportApp).Refactoring", params=["j", "resultNodes"], kind="callguard", in_loop=True, each={"as": "node"},
     callee="pkg/application/refactor/unused.removeImportByLines", expr="true",
     what="every analysed file is cleaned, whatever kind its top-level type is (class, interface, enum, annotation type, record)")
+RL = "pkg/application/refactor/base.(JavaRefactorListener)."
+ADDF = "pkg/application/refactor/base/models.(JFullIdentifier).AddField"
+row(props=["C06"], func=RL + "EnterAnnotation", params=["s", "ctx"], kind="callarg", callee=ADDF, arg=1, field="Name",
+    expr='call("strings.Split", GetText(QualifiedName(ctx)), ".")[0]', what="an annotation references the first segment of its (possibly qualified) name: @Value.Immutable uses the import of Value")
+row(props=["C06"], func=RL + "EnterQualifiedNameList", params=["s", "ctx"], kind="callarg", callee=ADDF, arg=1, field="Name", each={"as": "q"},
+    expr='call("strings.Split", GetText(q), ".")[0]', what="a thrown type references the first segment of its name")
+row(props=["C06"], func=RL + "EnterCatchType", params=["s", "ctx"], kind="callarg", callee=ADDF, arg=1, field="Name", each={"as": "q"},
+    expr='call("strings.Split", GetText(q), ".")[0]', what="a caught type references the first segment of its name")
 
 json.dump({"e5": rows}, open(os.path.join(os.path.dirname(os.path.dirname(os.path.abspath(__file__))), "spec", "e5.json"), "w"), indent=1, ensure_ascii=False)
 print(len(rows), "rows")
